@@ -178,7 +178,15 @@ def _all_scalars(ctx):
             round_trip(ctx, n, prog, x)
 
 
+def _omit_default_round_trip(ctx):
+    """With omit_default a dump omits what the load restores: falsy values that are NOT the (empty) default of their field must survive
+    (shared with C03, which owns the layout rule; here the round trip is the oracle)."""
+    from .c03 import _omit_default_of_empty_factories  # noqa: PLC0415
+    _omit_default_of_empty_factories(ctx)
+
+
 DIRECTED = {
+    "omit-default-round-trip": _omit_default_round_trip,
     "all-scalars": _all_scalars,
     "sqlalchemy-json-falsy-documents": _falsy_documents,
     "literal-bytes-strict": _values(spec.LiteralT((b"abc", 1)), [b"abc", 1]),
